@@ -679,8 +679,8 @@ def main(tier="quick", seed=0):
     th.start()
 
     # (G) cases from TLC; the residue classes depend on the seed
-    env = {"GEN_CM_MOD": 40 if quick else 12, "GEN_CM_REM": seed, "GEN_MOD": 48 if quick else 10,
-           "GEN_WRAP_MOD": 14 if quick else 6, "GEN_REM": 7 * seed + 1}
+    env = {"GEN_CM_MOD": 40 if quick else 12, "GEN_CM_REM": seed, "GEN_MOD": 48 if quick else 16,
+           "GEN_WRAP_MOD": 14 if quick else 10, "GEN_REM": 7 * seed + 1}
     cases = chk.generate("MC_Classify", "Classify_gen.cfg" if quick else "Classify_gen_thorough.cfg", env=env)
     if not cases:
         raise _tlc.MachineryError("the generator produced no case")
